@@ -12,6 +12,9 @@ PROP = dict(
     rule="programs: the D22 reproducer + (quick 40 / thorough 240) generated allocation-heavy programs (string "
          "building, arrays and nested arrays with push/pop/index-assign, struct field updates, closures, enum payloads, "
          "garbage loops); the collector is driven by hand through the verif_gc hook, one loop iteration per increment. "
+         "Also 'mover' programs (each of the four barriered store paths with the destination scanned before the source) "
+         "validated from 40/160 cycle start points, and programs with tasks (10 quick / 60 thorough; every green thread's own "
+         "heap and collector validated, a new thread's first state checked against the empty state). "
          "Validated runs (2 quick / 4 thorough schedules per program: cycle start at a random VM step with k increments "
          "per step; random bursts): EVERY transition of the real thread is one case - a collector increment must equal "
          "the model's gcStep on the dumped abstract heap, a VM instruction or host-call service must satisfy the mutator "
@@ -23,6 +26,8 @@ PROP = dict(
     trusted_base=COMMON_TB + [
         "hook abra_core::vm::verif_gc (manual stepping calls the existing start_mark_phase/process_gray/sweep with budget 1; "
         "the snapshot reads heap_list objects only) is assumed to report the thread's collector-visible state faithfully",
+        "static strings (no_gc, outside heap_list) are hidden from the snapshot's roots, children and gray stack; a gray-stack entry for one "
+        "(the write barrier can push it) is popped by the hook together with the neighbouring increment",
         "Rust Vec/Box/global allocator; byte budgets of the real pacing are finite repetitions of the one-object increments modelled",
         "objects in channels that belong to another thread's heap are outside this model (property C09, finding D23)",
     ],
